@@ -222,6 +222,9 @@ static Profile profile(const std::string& name, bool T) {
         p.alphabet = {"qr1", "qr5", "qr6", "qr7", "aec0", "aec1", "mm1", "wb", "rotx", "act0", "act1", "act7"};
         for (uint64_t m0 : {0, 1, 2, 3}) for (uint64_t m1 : {1, 2}) for (int h : {0, 1, 2})
             p.cfgs.push_back({"m" + std::to_string(m0) + "_" + std::to_string(m1) + "_h" + std::to_string(h), {PS(m0, 1000000, h), PS(m1, 1000000, h)}, PS(2, 1000, 0)});
+        // exactly one of the two other-data hint bits set (address events only / malformed messages only)
+        p.cfgs.push_back({"m2_1_other2", {PS(2, 1000000, 3), PS(1, 1000000, 3)}, PS(2, 1000, 0)});
+        p.cfgs.push_back({"m2_1_other1", {PS(2, 1000000, 8), PS(1, 1000000, 8)}, PS(2, 1000, 0)});
         // limits beyond 32 bits: a limit that is truncated to 2 / 0 items would flush where the model does not
         p.cfgs.push_back({"m2p32plus2_m2p32", {PS((1ULL << 32) + 2, 1000000, 0), PS(1ULL << 32, 1000000, 0)}, PS(2, 1000, 0)});
         p.cfgs.push_back({"m2p63_m2p64m1", {PS(1ULL << 63, 1000000, 0), PS(UINT64_MAX, 1000000, 1)}, PS(2, 1000, 0)});
@@ -236,7 +239,7 @@ static Profile profile(const std::string& name, bool T) {
     } else if (name == "rotate-xz") {
         p = profile("rotate", T); p.runs = {{"", S_FILE, 2}, {"", S_FD, 2}}; p.alphabet = {"qr0", "aec0", "mm0", "wb", "rotx", "rotn", "rots", "addbp", "act1"}; p.depth_q = 2; p.depth_t = 3;
     } else if (name == "roundtrip") {
-        p.alphabet = {"qr0", "qr1s1", "qr2", "qr3s2", "qr4", "qr6", "aec0", "aec1s1", "aec1s2", "aec2", "mm0", "mm1s2", "mm3", "mm4", "mm5", "wb", "act0", "act1", "rotx"};
+        p.alphabet = {"qr0", "qr1s1", "qr2", "qr3s2", "qr4", "qr6", "aec0", "aec1s1", "aec1s2", "aec2", "aec3", "mm0", "mm1s2", "mm3", "mm4", "mm5", "wb", "act0", "act1", "rotx"};
         for (int h : {0, 3, 2, 5, 6, 7}) for (uint64_t tps : {1ULL, 1000ULL, 1000000ULL, 1000000000ULL}) for (uint64_t m : {1, 2, 3, 10000}) {   // 6, 7: hint words that keep every other member (the two words differ in every bit)
             if (!T && !((h == 0) || (tps == 1000000 && m == 2) || (h == 3 && tps == 1 && m == 3) || (h == 5 && tps == 1000000000 && m == 10000) || (h == 6 && tps == 1000 && m == 3) || (h == 7 && tps == 1000000 && m == 10000))) continue;
             p.cfgs.push_back({"h" + std::to_string(h) + "_t" + std::to_string(tps) + "_m" + std::to_string(m), {PS(m, tps, h, m == 2), PS(m == 1 ? 2 : 1, tps == 1000 ? 1000000 : 1000, h == 0 ? 3 : 0)}, PS(2, 1000, 0)});
@@ -266,7 +269,7 @@ static Profile profile(const std::string& name, bool T) {
         p.cfgs.push_back({"one_m10000", {PS(10000, 1000000, 0)}, PS(2, 1000, 0)});
         p.runs = {{"", S_MEM, 0}}; p.depth_q = 4; p.depth_t = 5; p.auto_flush = true;
     } else if (name == "counts") {
-        p.alphabet = {"qr0s1", "qr1", "qr4", "aec1", "mm0", "mm3s2", "wb", "rotx", "rotn", "act1"};
+        p.alphabet = {"qr0s1", "qr1", "qr4", "aec1", "mm0", "mm3s2", "wb", "rotx", "rotn", "rots", "act1"};   // rots: rotation onto the first name again (named outputs)
         p.cfgs.push_back({"m2", {PS(2, 1000000, 0), PS(1, 1000, 3, true)}, PS(3, 1000, 0)});
         p.cfgs.push_back({"m2_emptycp", {PS(2, 1000000, 0, 2), PS(1, 1000, 3, 2)}, PS(3, 1000, 0, 2)});   // collection parameters present but empty
         p.cfgs.push_back({"m1_cp1", {PS(1, 1000000, 0, 3)}, PS(3, 1000, 0, 2)});
